@@ -22,7 +22,11 @@ NoName == "unable to resolve reference to name"
 UnresolvedRefPaths == {"components/examples/E", "components/headers/Rate", "components/parameters/Id", "components/requestBodies/Body/content/multipart/form-data/encoding/f/headers/X-P", "components/responses/Ok", "paths//items/{id}/get/responses/4XX/headers/X-R"}
 (* (operator, node) points at which a null / truncated entry is dereferenced *)
 KnownNullPoints == {<<"to_null", "components">>, <<"to_null", "components/examples/E">>, <<"to_null", "components/headers">>, <<"to_null", "components/links/L">>, <<"to_null", "components/requestBodies/Body/content/multipart/form-data/encoding/f">>, <<"to_null", "components/requestBodies/Body/content/multipart/form-data/encoding/f/headers/X-P">>, <<"to_null", "paths//items/{id}/get/responses/4XX/content/application/json/examples/e">>, <<"to_null", "servers/0">>, <<"to_null", "servers/0/variables/sub">>, <<"to_null", "tags/0">>, <<"truncate_here", "paths//items/{id}/get/responses/4XX/content/application/json/examples">>}
-IsKnownNilPoint(m) == (m.op \in RefOpsF /\ m.path \in UnresolvedRefPaths) \/ <<m.op, m.path>> \in KnownNullPoints
+(* a component entry replaced by a whole-file reference to an EMPTY file loads with Value == nil *)
+ExtEmptyComponentPaths == {"components/schemas/Err", "components/schemas/Item", "components/schemas/CycA", "components/schemas/CycB",
+                           "components/callbacks/Cb", "components/links/L", "components/requestBodies/Body", "components/securitySchemes/key",
+                           "components/securitySchemes/oauth"}
+IsKnownNilPoint(m) == (m.op = "ref_ext_empty" /\ m.path \in ExtEmptyComponentPaths) \/ (m.op \in RefOpsF /\ m.path \in UnresolvedRefPaths) \/ <<m.op, m.path>> \in KnownNullPoints
 
 Panicked(obs) == {s \in DOMAIN obs : obs[s] = "panic"}
 
